@@ -7,7 +7,8 @@
   * `nud` / `led` function pointers are the tags `Nud` / `Led`.
   * Binding powers are Go `float32`.  They travel as `Float` (binary64) holding a float32
     value; comparisons are exact, and the only arithmetic, `bp - 1`, is done in `Float32`
-    (`bpPred`), so `1e10 - 1 = 1e10` and `16777216 - 1 = 16777215` as in Go.
+    (`bpPred` = `BP.Prev`, the float32 predecessor: the right operand of a right-associative
+    operator is parsed just below the operator's own power).
   * A Go panic (every `util.Assert`, the slice expression in `ast.Time`) is `ParseErr.syntax`;
     `tryParse` recovers from every panic and rewinds, modelled in `listMap` by catching
     `.syntax` only.  `.externMiss` (the `strtotime` table has no entry for a time literal) and
@@ -101,8 +102,16 @@ def Grammar.infixLbp (g : Grammar) (k : String) : Float :=
   | some (bp, _) => bp
   | none => 0
 
-/-- `bp - 1` in `float32`. -/
-def bpPred (bp : Float) : Float := (bp.toFloat32 - 1).toFloat
+/-- `BP.Prev`: `math.Nextafter32(bp, -Inf)`, the largest float32 below `bp`. -/
+def bpPred (bp : Float) : Float :=
+  let x := bp.toFloat32
+  if x.isNaN then bp
+  else if x == 0 then (Float32.ofBits 0x80000001).toFloat
+  else
+    let b := x.toBits
+    if b == 0xff800000 then bp                      -- -Inf stays
+    else if x > 0 then (Float32.ofBits (b - 1)).toFloat
+    else (Float32.ofBits (b + 1)).toFloat
 
 /-- `lexer.EOF` -/
 def eofToken : Token := ⟨tkEOF, tkEOF, Pos.unknown⟩
